@@ -278,15 +278,17 @@ func (e *FieldExpression) unwrapReference(ref *dtpb.Reference) *dtpb.String {
 func (e *FieldExpression) unwrapOneof(obj proto.Message) proto.Message {
 	message := obj.ProtoReflect()
 	descriptor := message.Descriptor()
-	if name := string(descriptor.Name()); !(strings.HasSuffix(name, "ValueX") || name == "ContainedResource") {
-		return obj
-	}
 	oneofsNum := descriptor.Oneofs().Len()
 	if oneofsNum != 1 {
 		return obj
 	}
 
+	// Choice-typed elements (value[x], deceased[x], onset[x], …) are wrapped in a message whose
+	// single oneof is called "choice", whatever the wrapper itself is named.
 	oneof := descriptor.Oneofs().Get(0)
+	if name := string(descriptor.Name()); !(oneof.Name() == "choice" || name == "ContainedResource") {
+		return obj
+	}
 	field := message.WhichOneof(oneof)
 	if oneof == nil || field == nil {
 		return obj
